@@ -313,18 +313,61 @@ impl Ctx {
             self.max(&format!("stream_wall_ms:{}", stream), t0.elapsed().as_millis() as u64);
             return;
         }
+        // per-worker "current case and when it started", watched by a stall monitor: a case that
+        // does not return is reported (STALL lines); if the run has already found a violation the
+        // evidence is written and the process exits with 1 instead of waiting for the watchdog
+        let slots: Vec<Mutex<Option<(u64, Instant)>>> = (0..threads).map(|_| Mutex::new(None)).collect();
+        let done = std::sync::atomic::AtomicBool::new(false);
+        let stall_limit = std::env::var("VERIF_STALL_S").ok().and_then(|s| s.parse().ok()).unwrap_or(if self.tier == Tier::Quick { 300u64 } else { 1800 });
         std::thread::scope(|sc| {
-            for _ in 0..threads {
-                sc.spawn(|| loop {
+            for w in 0..threads {
+                let slots = &slots;
+                let next = &next;
+                let run_one = &run_one;
+                sc.spawn(move || loop {
                     let i = next.fetch_add(1, Ordering::SeqCst);
                     if i >= n {
+                        *slots[w].lock().unwrap() = None;
                         break;
                     }
+                    *slots[w].lock().unwrap() = Some((i as u64, Instant::now()));
                     run_one(i as u64);
                 });
             }
+            let slots = &slots;
+            let done = &done;
+            sc.spawn(move || {
+                let mut warned: HashSet<u64> = HashSet::new();
+                while !done.load(Ordering::SeqCst) {
+                    std::thread::sleep(std::time::Duration::from_millis(500));
+                    let mut all_idle = true;
+                    for s in slots.iter() {
+                        if let Some((idx, t0)) = *s.lock().unwrap() {
+                            all_idle = false;
+                            let el = t0.elapsed().as_secs();
+                            if el >= 60 && warned.insert(idx) {
+                                println!("STALL {} case {}:{} has been running for {} s", self.id, stream, idx, el);
+                            }
+                            if el >= stall_limit && self.n_violations() > 0 {
+                                println!("STALL {} case {}:{} did not return within {} s; violations were already reported: finishing now", self.id, stream, idx, el);
+                                let code = self.finish_partial();
+                                std::process::exit(code);
+                            }
+                        }
+                    }
+                    if all_idle {
+                        break;
+                    }
+                }
+            });
         });
+        done.store(true, Ordering::SeqCst);
         self.max(&format!("stream_wall_ms:{}", stream), t0.elapsed().as_millis() as u64);
+    }
+
+    /// Used when a case hangs after violations were already reported.
+    pub fn finish_partial(&self) -> i32 {
+        self.finish("exploration", "run cut short: a case did not return after violations had already been reported", &["partial run"], J::obj().set("partial", true))
     }
 
     /// Writes the evidence file and returns the process exit code (0 held, 1 violated,
